@@ -1,0 +1,12 @@
+//go:build verif
+
+// Contracts for package experiments, read by /verif/bin/gvc (contract-based deductive verification).
+// This file contains comments only; it is compiled only under the build tag "verif".
+package experiments
+
+// ---- C10: the project's .env file reaches the process environment only for experiment switches ------------
+// Variables of the process environment win over everything a Taskfile says (env.GetFromVars looks them up
+// first): copying any other entry of .env into the process environment would make a dotenv value beat the
+// Taskfile's and the task's own env for that name.
+//@ func readDotEnv
+//@   site os.Setenv#0 requires strHasPrefix(arg0, "TASK_X_")                                                   [C10]
